@@ -80,6 +80,43 @@ CHECKS["C20"] = dict(
     technique="Lean 4 proof (matcher lemmas + inversion) + pinned pattern text + differential correspondence",
     design="5/C20")
 
+CHECKS["C13"] = dict(
+    text="Theorems (Props/C13.lean), generic in the candidate readers (any state type, any read function): message_queue_exact - the queue "
+         "holds exactly the messages of the selected reader from the chunk in which it first reported a valid message on; "
+         "payload_queue_exact - exactly the non-empty payloads of its valid messages, in order, no loss, no duplication, nothing from "
+         "invalid messages or other candidates; selected_is_first_valid - the selected reader is the first candidate (list order) in the "
+         "earliest chunk with a valid message; single_candidate. All by induction over the chunk sequence against a specification stated on "
+         "each candidate's OWN message stream. Correspondence: real SmartMeterMessageProtocol / SmartMeterMessagePayloadProtocol with real "
+         "readers and asyncio.Queue vs the model instantiated with the HDLC and P1 reader models, on clean/corrupted/mixed streams x "
+         "chunkings x 11 candidate lists; the implementation's queue is also compared with the specification computed from separately fed "
+         "real readers.",
+    note=NOTE_COMMON + "Partial: the clean-stream sentence of the statement needs 'the other candidate reports no valid message before "
+         "selection' (an HDLC payload may legally embed a complete P1 readout), so it is checked on generated streams, not proved unconditionally.",
+    technique="Lean 4 proof (generic refinement of data_received to a per-reader specification) + differential correspondence",
+    design="5/C13")
+CHECKS["C14"] = dict(
+    text="Theorems (Props/C14Hdlc.lean, C14P1.lean): the readers are re-modelled with PARTIAL primitives (indexing, seq[-1:][0], assert, "
+         "bytes.decode('ascii'), int(text,16), line[0], the DataReadout constructor) that do fail on some inputs; readE_ok / readNextE_ok / "
+         "accessor theorems show every HDLC call site is guarded (the Except-valued model returns .ok of the pure model for every state, "
+         "configuration and chunk); p1_readAll_total / p1_read_total: no chunk sequence makes ModeDReader.read raise; p1_isValid_total: "
+         "is_valid never raises. Usability after noise is C16. Correspondence: noise biased to the structural characters through both real "
+         "readers (4 HDLC cfgs), every message accessor, and both protocol classes with [HDLC,P1]/[P1,HDLC] candidates; any escaping "
+         "exception is a failing input.",
+    note=NOTE_COMMON + "Exceptions from unmodelled library code (logging formatting, MemoryError) are outside the theorems.",
+    technique="Lean 4 proof (Except-valued refinement: every partial primitive is guarded) + differential noise correspondence",
+    design="5/C14")
+CHECKS["C19"] = dict(
+    text="Theorems (Props/C19Hdlc.lean, C19P1.lean) for EVERY history: after any read() the HDLC reader retains at most 3*2047+1 octets "
+         "(buffer empty between calls, frame <= 2047, raw history <= 2*frame+1) - attained exactly in the soak; the P1 reader carries at most "
+         "guard + |chunk| pending octets into the next call and retains at most 2*8191 + 2*|chunk| octets (consumed bytes stay in the "
+         "bytearray until the next call while they are also copied into the collected lines; a machine-checked counterexample shows the "
+         "factor 2 is needed). Correspondence: logical buffer/raw/frame sizes after EVERY call, real reader vs model, on the quantifier's "
+         "stream patterns x chunk sizes; soak of 1 MiB (quick) / 8 MiB (thorough) per pattern measuring logical sizes against the theorem "
+         "bounds and sys.getsizeof of the containers against an affine envelope.",
+    note=NOTE_COMMON + "Partial: CPython's allocator is not modelled; the theorems bound logical octet counts, the soak measures bytes.",
+    technique="Lean 4 proof (size invariants by induction over all histories) + state-size correspondence + soak",
+    design="5/C19")
+
 NOT_YET = {}
 
 
